@@ -949,12 +949,19 @@ func verifC30DFSConfigs(thorough bool) []*verifC30Config {
 				if !thorough && h != [2]uint32{1, 1} && h != [2]uint32{2, 2} && ps.name != "empty" && p.name != "split2" {
 					continue
 				}
+				if thorough && h == [2]uint32{2, 2} && ps.name != "empty" && ps.name != "a1.b3.z2" {
+					continue // (2,2) costs ~50k executions per configuration (rejection x18)
+				}
 				if h[0] == 3 || h[1] == 3 {
 					// height-3 towers: only the patterns where both inserters share every splice
 					if p.name != "equal" && p.name != "adjacent" && p.name != "sameuser" {
 						continue
 					}
 					if ps.name != "empty" && ps.name != "a2.z1" {
+						continue
+					}
+					// (2,3)/(3,2): ~9k schedules x50 rejection each
+					if h[0]+h[1] >= 5 && !(ps.name == "empty" && (p.name == "equal" || p.name == "adjacent")) {
 						continue
 					}
 				}
@@ -970,13 +977,6 @@ func verifC30DFSConfigs(thorough bool) []*verifC30Config {
 				}
 				add(c)
 			}
-		}
-	}
-	if thorough {
-		// the (3,3) combination for the densest pattern on the empty list
-		for _, p := range pats[:1] {
-			add(&verifC30Config{Name: fmt.Sprintf("A/%s/pre=empty/h=3.3", p.name), Family: "A:2x1", Split: 4,
-				Actors: [][]verifC30Op{verifC30One(p.k0, 3), verifC30One(p.k1, 3)}})
 		}
 	}
 	// Family S: scripted sequential sequences (one actor, one schedule).
@@ -1003,11 +1003,9 @@ func verifC30DFSConfigs(thorough bool) []*verifC30Config {
 		for _, rd := range []string{"f", "b"} {
 			add(&verifC30Config{Name: "E/2ins/equal/" + rd, Family: "E:reader", Split: 2,
 				Actors: [][]verifC30Op{verifC30One(d1, 1), verifC30One(d1, 1)}, Reader: rd})
-			add(&verifC30Config{Name: "E/2ins/pre-a/" + rd, Family: "E:reader", Split: 2, Pre: []verifC30Key{a1}, PreH: []uint32{1},
-				Actors: [][]verifC30Op{verifC30One(e1, 1), verifC30One(c1, 1)}, Reader: rd})
-			add(&verifC30Config{Name: "E/2ins/split/" + rd, Family: "E:reader", Split: 2, Pre: []verifC30Key{d1}, PreH: []uint32{2},
-				Actors: [][]verifC30Op{verifC30One(e1, 1), verifC30One(c1, 1)}, Reader: rd})
 		}
+		add(&verifC30Config{Name: "E/2ins/split/b", Family: "E:reader", Split: 2, Pre: []verifC30Key{d1}, PreH: []uint32{2},
+			Actors: [][]verifC30Op{verifC30One(e1, 1), verifC30One(c1, 1)}, Reader: "b"})
 		add(&verifC30Config{Name: "E/2ins/empty/bb", Family: "E:reader", Split: 2,
 			Actors: [][]verifC30Op{verifC30One(e1, 1), verifC30One(c1, 1)}, Reader: "bb"})
 	}
@@ -1024,6 +1022,9 @@ func verifC30DFSConfigs(thorough bool) []*verifC30Config {
 	}
 	if thorough {
 		for _, p := range p2 {
+			if p.name != "interleaved" && p.name != "crossed" {
+				continue
+			}
 			for _, ins := range []bool{false, true} {
 				add(&verifC30Config{Name: fmt.Sprintf("C/%s/inserter=%v", p.name, ins), Family: "C:2x2", Inserter: ins, Split: 2,
 					Actors: [][]verifC30Op{verifC30Ops(1, p.a0...), verifC30Ops(1, p.a1...)}})
@@ -1032,8 +1033,6 @@ func verifC30DFSConfigs(thorough bool) []*verifC30Config {
 		add(&verifC30Config{Name: "C/interleaved/pre=d2/inserter=true", Family: "C:2x2", Inserter: true, Split: 2,
 			Pre: []verifC30Key{d1}, PreH: []uint32{2},
 			Actors: [][]verifC30Op{verifC30Ops(1, c1, e1), verifC30Ops(1, b1, f1)}})
-		add(&verifC30Config{Name: "C/tall-first/inserter=true", Family: "C:2x2", Inserter: true, Split: 3,
-			Actors: [][]verifC30Op{{{K: c1, H: 2}, {K: e1, H: 1}}, {{K: d1, H: 1}, {K: f1, H: 1}}}})
 	} else {
 		add(&verifC30Config{Name: "C/2+1/inserter=true", Family: "C:2+1", Inserter: true,
 			Actors: [][]verifC30Op{verifC30Ops(1, c1, e1), verifC30Ops(1, d1)}})
@@ -1046,8 +1045,6 @@ func verifC30DFSConfigs(thorough bool) []*verifC30Config {
 			Actors: [][]verifC30Op{verifC30Ops(1, b1, d1, f1), verifC30Ops(1, c1)}})
 		add(&verifC30Config{Name: "D/3+1/dups/inserter=true", Family: "D:3+k", Inserter: true,
 			Actors: [][]verifC30Op{verifC30Ops(1, b1, d1, b1), verifC30Ops(1, d1)}})
-		add(&verifC30Config{Name: "D/3+2/inserter=true", Family: "D:3+k", Inserter: true, Split: 4,
-			Actors: [][]verifC30Op{verifC30Ops(1, b1, d1, f1), verifC30Ops(1, c1, e1)}})
 	}
 	// Family B: three inserters, one key each.
 	if thorough {
@@ -1058,17 +1055,16 @@ func verifC30DFSConfigs(thorough bool) []*verifC30Config {
 		p3 := []pat3{
 			{"all-equal", d1, d1, d1},
 			{"all-adjacent", c1, d1, e1},
-			{"two-equal", d1, d1, e1},
 			{"sameuser", d3, d2, d1},
 		}
 		for _, p := range p3 {
 			add(&verifC30Config{Name: "B/" + p.name + "/pre=empty/h=1.1.1", Family: "B:3x1", Split: 2,
 				Actors: [][]verifC30Op{verifC30One(p.k0, 1), verifC30One(p.k1, 1), verifC30One(p.k2, 1)}})
-			add(&verifC30Config{Name: "B/" + p.name + "/pre=a2/h=1.1.1", Family: "B:3x1", Split: 2, Pre: []verifC30Key{a1}, PreH: []uint32{2},
-				Actors: [][]verifC30Op{verifC30One(p.k0, 1), verifC30One(p.k1, 1), verifC30One(p.k2, 1)}})
+			if p.name == "all-adjacent" {
+				add(&verifC30Config{Name: "B/" + p.name + "/pre=a2/h=1.1.1", Family: "B:3x1", Split: 2, Pre: []verifC30Key{a1}, PreH: []uint32{2},
+					Actors: [][]verifC30Op{verifC30One(p.k0, 1), verifC30One(p.k1, 1), verifC30One(p.k2, 1)}})
+			}
 		}
-		add(&verifC30Config{Name: "B/all-adjacent/pre=empty/h=2.1.1", Family: "B:3x1", Split: 3,
-			Actors: [][]verifC30Op{verifC30One(c1, 2), verifC30One(d1, 1), verifC30One(e1, 1)}})
 	}
 	return out
 }
@@ -1379,9 +1375,9 @@ func TestVerifC30(t *testing.T) {
 			items = append(items, item{c, pre})
 		}
 	}
-	nWalkCfg := vcommon.Scale(240, 4000)
-	walksPer := vcommon.Scale(150, 400)
-	maxSched := vcommon.Scale(40000, 3000000)
+	nWalkCfg := vcommon.Scale(240, 3000)
+	walksPer := vcommon.Scale(150, 300)
+	maxSched := vcommon.Scale(40000, 400000)
 	total := len(items) + nWalkCfg
 	r.Count("dfs_work_items_total", 0)
 	complete, incomplete := 0, 0
@@ -1446,7 +1442,7 @@ func TestVerifC30Stress(t *testing.T) {
 	r.Rule("case = one stress run: 8-32 free-running inserters over 10^4-10^5 distinct keys (quick tier: 3000-10^4) plus 5% duplicate attempts, three dealing patterns " +
 		"(shuffled, sorted round-robin = neighbours inserted at the same time, per-inserter ascending runs with Inserter), arena either ample or filling up near the end, " +
 		"2 free-running readers, seeded random yields at the four sites; distinct = (inserters, keys, pattern, arena mode); non-trivial = at least one CAS retry was observed")
-	n := vcommon.Scale(8, 96)
+	n := vcommon.Scale(8, 64)
 	type padded struct {
 		n atomic.Int64
 		_ [7]uint64
